@@ -48,7 +48,15 @@ func run(stack, dir, progFile, out string) {
 	w, err := vtrace.Create(out)
 	must(err)
 	it := &pdrv.Interp{St: b.Storage, W: w, Buckets: []string{"b1", "b2"}, Keys: []string{"k1", "k2"}}
+	if os.Getenv("VERIF_HTTP_FRONT") != "" {
+		it.HTTP = pdrv.NewHTTPFront(b.Storage)
+	}
 	it.Hook = func(ev map[string]any) {
+		ok, why := refsOK(b)
+		ev["refs_ok"] = ok
+		if !ok {
+			ev["refs_why"] = why
+		}
 		ev["placement"] = []any{}
 		ev["placed"] = stack == "classes" || os.Getenv("VERIF_PLACEMENT") != ""
 		if stack == "classes" || os.Getenv("VERIF_PLACEMENT") != "" {
